@@ -15,12 +15,17 @@ HARNESSES = {
     'nonce_frees_no_seed_bytes_none_k': ('nonce', {'what': 'prove', 'x': 2, 'm': 1, 'n': 64}),
     'nonce_frees_no_seed_bytes_j_k': ('nonce', {'what': 'verify_recover', 'x': 2, 'm': 1, 'n': 64}),
     'witness_plain_vec_is_dirty': ('vacuity-twin', None),
+    'statement_drop_clears_seed': ('statement', {'what': 'statement', 'x': 1, 'm': 1, 'n': 8}),
 }
+SLOW = {'statement_drop_clears_seed'}    # ~8 min (unwind 140 through generator construction): thorough tier only
 
 
 def run_kani(ctx):
     env = dict(os.environ, CARGO_NET_OFFLINE='true', RUSTFLAGS='--cfg bpp_verif')
     cmd = ['cargo', 'kani', '-Z', 'stubbing', '--target-dir', os.path.join(BUILD, 'kani'), '--output-format', 'terse']
+    for h in HARNESSES:
+        if not (ctx.quick() and h in SLOW):
+            cmd += ['--harness', h]
     t0 = time.time()
     limit = 1500 if ctx.quick() else 3600
     try:
@@ -69,6 +74,8 @@ def run_kani(ctx):
 def run(ctx):
     results, wall = run_kani(ctx)
     for h, (kind, rcfg) in HARNESSES.items():
+        if ctx.quick() and h in SLOW:
+            continue
         r = results.get(h)
         if r is None:
             ctx.inconclusive.append('Kani harness %s did not run' % h)
@@ -85,8 +92,8 @@ def run(ctx):
             if not ok:
                 ctx.inconclusive.append('vacuity witness %s not satisfied: %s' % (h, r))
             continue
-        dirty = [f for f in r['failed'] if 'DIRTY == 0' in f]
-        other = [f for f in r['failed'] if 'DIRTY == 0' not in f]
+        dirty = [f for f in r['failed'] if 'DIRTY == 0' in f or 'seed_nonce.is_none()' in f]
+        other = [f for f in r['failed'] if not ('DIRTY == 0' in f or 'seed_nonce.is_none()' in f)]
         if r['verdict'] == 'SUCCESSFUL':
             ctx.D.record('kani', '%s: no freed block contains a secret byte, for all secret bytes (%d CBMC checks)' % (h, r['checks'] or 0), 'unsat', dt, 'unsat', 'cargo kani --harness %s' % h)
         elif dirty and not other:
